@@ -117,6 +117,11 @@ Inductive stmt :=
   | SIf (c : expr) (a b : stmts)
   | SWhile (c : expr) (b : stmts)
   | SFor (t : target) (it : expr) (b : stmts)
+  | SForWB (x : string) (it : expr) (b : stmts)
+      (* pl14, additive: [for x in <l-value path>: body] where the body mutates the object bound to [x]
+         and never rebinds [x]: after each iteration the value of [x] is written back to the element
+         it came from (in Python the loop variable IS that element).  Emitted by the translator only
+         under that syntactic condition (tools/pylite.py, [forwb_pattern]). *)
   | SReturn (e : oexpr)
   | SRaise (e : expr)
   | SAssert (e : expr)
@@ -224,7 +229,10 @@ Definition f32_to_pv (bits : N) : pv :=
   let sign := Z.shiftr b 31 in
   let ex := Z.land (Z.shiftr b 23) 255 in
   let man := Z.land b (2 ^ 23 - 1) in
-  if ex =? 255 then PF64 (Z.to_N (Z.lor (Z.shiftl sign 63) (Z.lor (Z.shiftl 2047 52) (Z.shiftl man 29))))
+  (* pl14: a single-precision NaN converted to double has its quiet bit set (the hardware conversion that
+     struct.unpack('f') goes through quiets a signalling NaN); infinities are unchanged *)
+  if ex =? 255 then PF64 (Z.to_N (Z.lor (Z.shiftl sign 63) (Z.lor (Z.shiftl 2047 52)
+                                  (Z.lor (Z.shiftl man 29) (if man =? 0 then 0 else 2 ^ 51)))))
   else
     let m := if ex =? 0 then man else man + 2 ^ 23 in
     let e := if ex =? 0 then 149 else 150 - ex in
@@ -599,7 +607,7 @@ Definition is_instance (v : pv) (cls : string) : option bool :=
   end.
 
 Definition builtin_names : list string :=
-  ["len"; "bytes"; "int"; "bool"; "str"; "tuple"; "list"; "set"; "range"; "isinstance"; "enumerate"; "round"; "float"; "getattr"].
+  ["len"; "bytes"; "int"; "bool"; "str"; "tuple"; "list"; "set"; "range"; "isinstance"; "enumerate"; "round"; "float"; "getattr"; "callable"].
 Definition builtin_types : list string := ["tuple"; "list"; "int"; "bool"; "str"; "bytes"; "set"].
 Definition module_names : list string := ["struct"; "crcmod"; "copy"; "queue"].
 
@@ -825,6 +833,15 @@ Fixpoint find_const (P : prog) (depth : nat) (cls a : string) : option expr :=
       end
   end.
 
+(** ADDITIVE (pl15): what [callable(v)] answers.  An instance is callable iff its class (or a base)
+    defines __call__; functions, builtins / bound methods, classes, CRC functions are; data values are not. *)
+Definition py_callable (P : prog) (v : pv) : bool :=
+  match v with
+  | PObj c _ => match find_method P mro_depth c "__call__" with Some _ => true | None => false end
+  | PFunc _ | PBuiltin _ | PCls _ | PCrc _ => true
+  | _ => false
+  end.
+
 Fixpoint enum_by_value (ms : list (string * Z)) (z : Z) : option string :=
   match ms with
   | [] => None
@@ -876,7 +893,11 @@ Fixpoint path_get (P : prog) (e : env) (p : expr) : option pv :=
       | _ => None
       end
   | EIndex q i =>
-      match path_get P e q, idx_val e i with
+      (* pl14, additive: the index may also be an attribute chain ([samples[data.chan]]), read as a path *)
+      match path_get P e q, (match i with
+                             | EAttr _ _ => match path_get P e i with Some v => as_int v | None => None end
+                             | _ => idx_val e i
+                             end) with
       | Some (PList l), Some z => match norm_index (List.length l) z with
                                   | Some k => nth_error l k | None => None end
       | _, _ => None
@@ -895,7 +916,10 @@ Fixpoint path_set (P : prog) (e : env) (p : expr) (v : pv) : option env :=
       | _ => None
       end
   | EIndex q i =>
-      match path_get P e q, idx_val e i with
+      match path_get P e q, (match i with
+                             | EAttr _ _ => match path_get P e i with Some v => as_int v | None => None end
+                             | _ => idx_val e i
+                             end) with
       | Some (PList l), Some z => match norm_index (List.length l) z with
                                   | Some k => path_set P e q (PList (list_set l k v)) | None => None end
       | _, _ => None
@@ -1000,6 +1024,13 @@ Section Interp.
           | [v; PStr a] => get_attr v a
           | _ => Unsupported "getattr()"
           end
+        else if String.eqb n "callable" then
+          (* ADDITIVE (pl15): callable(v).  An instance is callable iff its class (or a base) defines
+             __call__; functions, builtins, classes, CRC functions are; data values are not. *)
+          match args with
+          | [v] => Ok (PBool (py_callable P v))
+          | _ => Exc "TypeError"
+          end
         else call_builtin P n args
     | PFunc n =>
         match find_func (p_funcs P) n with
@@ -1087,7 +1118,27 @@ Section Interp.
     match r with
     | PObj c fs =>
         match lookup m fs with
-        | Some fv => do x <- strip (call_value fv args kws); Ok (x, r)   (* a callable kept in a field: its state is not ours *)
+        | Some fv =>
+            (* ADDITIVE (pl15): the field holds an INSTANCE whose class defines __call__ (before: TypeError).
+               [recv.m(args)] runs __call__ with that instance as its receiver and stores the instance it
+               leaves behind back into the field [m] of [recv] (Python on an alias-free object graph: the
+               callable is reachable through this field only); a raise reports the receiver likewise. *)
+            match fv with
+            | PObj c' _ =>
+                match find_method P mro_depth c' "__call__" with
+                | Some f =>
+                    match callf f (fv :: args) kws with
+                    | Ok x => Ok (fst x, PObj c (update m (match snd x with Some s => s | None => fv end) fs))
+                    | Exc e => Exc e
+                    | ExcS e ((_, fv') :: nil) => ExcS e [("$self", PObj c (update m fv' fs))]
+                    | ExcS e st => ExcS e []
+                    | Fuel => Fuel
+                    | Unsupported w => Unsupported w
+                    end
+                | None => do x <- strip (call_value fv args kws); Ok (x, r)
+                end
+            | _ => do x <- strip (call_value fv args kws); Ok (x, r)   (* a callable kept in a field: its state is not ours *)
+            end
         | None =>
             match find_method P mro_depth c m with
             | Some f =>
@@ -1325,6 +1376,34 @@ Section Interp.
                | ORet v e2 => Ok (ORet v e2)
                end
            end) l e1
+    | SForWB x it b =>
+        do (vi, e1) <- eval e it;
+        match vi with
+        | PList l0 =>
+            (fix loop (k : nat) (l : list pv) (e : env) : res out :=
+               match l with
+               | [] => Ok (ONorm e)
+               | y :: r =>
+                   (* the element the loop variable stands for gets the variable's final value *)
+                   let wb (e2 : env) : res env :=
+                     match lookup x e2 with
+                     | Some v =>
+                         match path_set P e2 (EIndex it (EConst (PInt (Z.of_nat k)))) v with
+                         | Some e3 => Ok e3
+                         | None => Unsupported "for write-back target"
+                         end
+                     | None => Unsupported "for write-back variable"
+                     end in
+                   match exec_block (update x y e) b with
+                   | Ok (ONorm e2) | Ok (OCont e2) => do e3 <- wb e2; loop (S k) r e3
+                   | Ok (OBrk e2) => do e3 <- wb e2; Ok (ONorm e3)
+                   | Ok (ORet v e2) => do e3 <- wb e2; Ok (ORet v e3)
+                   | ExcS c e2 => do e3 <- wb e2; ExcS c e3   (* mutated, then raised *)
+                   | r' => r'
+                   end
+               end) O l0 e1
+        | _ => Unsupported "for write-back over a value that is not a list"
+        end
     | SReturn o =>
         match o with
         | ONone => Ok (ORet PNone e)
